@@ -54,23 +54,25 @@ def main():
         if not bad:
             passed.add(name)
     missing = sorted(stable - passed)
-    if missing and len(missing) <= 40:
-        # hypothesis tests have deadlines/health checks that trip under 16-way load: re-run the
-        # missing ones alone, sequentially, before believing the failure
+    attempt = 0
+    while missing and len(missing) <= 40 and attempt < 3:
+        attempt += 1
+        # hypothesis property tests in the stable set are randomized (fresh examples every run) and have deadlines / health checks that
+        # trip under load: re-run the missing ones alone, sequentially, up to three times before believing the failure
         ids = []
         for m in missing:
             cls, name = m.split('::')
             parts = cls.split('.')
             i = max(k for k, x in enumerate(parts) if x.startswith('test_'))
             ids.append('/'.join(parts[:i + 1]) + '.py::' + '::'.join(parts[i + 1:] + [name]))
-        junit3 = os.path.join(out, 'junit3.xml')
+        junit3 = os.path.join(out, 'junit3_%d.xml' % attempt)
         cmd3 = [c if not c.startswith('--junitxml') else '--junitxml=' + junit3 for c in cmd2[:-1]] + ids
         subprocess.run(cmd3, cwd=repo, env=env, stdout=subprocess.PIPE, stderr=subprocess.STDOUT, text=True)
         for tc in ET.parse(junit3).getroot().iter('testcase'):
             name = f"{tc.get('classname')}::{tc.get('name')}"
             if not any(ch.tag in ('failure', 'error', 'skipped') for ch in tc):
                 passed.add(name)
-        print('re-ran alone:', len(missing), 'now missing:', len(stable - passed))
+        print('re-ran alone (attempt %d):' % attempt, len(missing), 'now missing:', len(stable - passed))
         missing = sorted(stable - passed)
     print('\n'.join(tail))
     print(f'total={total} passed={len(passed)} stable={len(stable)} stable_missing={len(missing)}')
